@@ -21,6 +21,7 @@ import common
 import sexp
 import c09gen
 import c09sem
+import c09probe
 
 VARIABLE_KINDS = ("unusedvar", "unusedparam", "varnse", "paramnse")
 SECTIONS = ("universe", "taint", "closure", "cons", "ccl", "constrained", "defs", "decls", "sinks", "findings")
@@ -85,6 +86,37 @@ def findings_of(res_sx):
         if sec[0] == "findings":
             return [(f[0], f[1], sexp.unhex(f[2]), f[3], f[4]) for f in sec[1:]]
     return []
+
+
+def sink_consistency(res_sx):
+    """The sink set printed by the harness is a transcription (side_effect_analysis.rs keeps its own in a
+    local variable). This ties it to the REAL reports on the implementation side alone, without the model:
+    for every definition D that the real pass could report,
+        real pass reports `no side effect` for D   <=>   multi_step_taint(D) misses the transcribed sink set
+    (a definition reported as never read, or named `_`, is exempt). Returns the inconsistent definitions."""
+    secs = dict((sec[0], sec[1:]) for sec in res_sx[1:])
+    sinks = set(sexp.show(v) for v in secs.get("sinks", []))
+    closure = dict((sexp.show(row[0]), set(sexp.show(v) for v in row[1:])) for row in secs.get("closure", []))
+    kinds = {}
+    for f in secs.get("findings", []):
+        if f[1] in VARIABLE_KINDS:
+            kinds.setdefault((sexp.unhex(f[2]), f[3], f[4]), set()).add(f[1])
+    groups = {}
+    for d in secs.get("defs", []):
+        groups.setdefault((sexp.unhex(d[0][1]), d[1], d[2]), []).append(sexp.show(d[0]))
+    bad = []
+    for key, vs in groups.items():
+        if len(vs) != 1 or key[0] == "_":
+            continue            # two definitions printed alike at one location: not attributable
+        ks = kinds.get(key, set())
+        if ks & {"unusedvar", "unusedparam"}:
+            continue
+        reaches = bool(closure.get(vs[0], set()) & sinks)
+        claimed = bool(ks & {"varnse", "paramnse"})
+        if claimed == reaches:
+            bad.append({"definition": vs[0], "at": key[1:], "real_pass_claims_no_side_effect": claimed,
+                        "reaches_transcribed_sink_set": reaches})
+    return bad
 
 
 # --------------------------------------------------------------------------
@@ -225,8 +257,19 @@ def load_corpus():
     return out
 
 
-def make_cases(ctx, n):
-    progs = load_corpus()
+def load_probes():
+    """Sink probes (lib/c09probe.py): deterministic, every sink kind x value kind x depth x context."""
+    out = []
+    for prog in c09probe.probes():
+        prog["source"] = c09gen.render(prog)
+        prog["alphabet"] = "probe"
+        out.append(prog)
+    return out
+
+
+def make_cases(ctx, n, fixed=True):
+    """`fixed`: the regression corpus and the sink probes come first (first batch only)."""
+    progs = (load_corpus() + load_probes()) if fixed else []
     for _ in range(n):
         if ctx.rng.random() < 0.12:
             p = targeted(ctx.rng)
@@ -268,21 +311,32 @@ def evaluate(ctx, progs, nval, nrep):
             sx = sexp.parse(out)
             parsed[i] = sx
             ok_idx.append(i)
-            model_in.append(MODEL_MODE + " " + sexp.show(sx[1]) + " " + sexp.show(sx[2]))
+            model_in.append(MODEL_MODE + " " + sexp.show(sx[1]) + " " + sexp.show(sx[2])
+                            + (" " + sexp.show(sx[4]) if len(sx) > 4 else ""))
     model = common.run_lines(MODEL_BIN, [], model_in, shards=common.NPROC, timeout=1500)
     if len(model) != len(model_in):
         raise common.BuildError("model taint: %d outputs for %d inputs" % (len(model), len(model_in)), "")
     lap("model")
     disagreements = []
     wf_fail = []
+    ssa_fail = []
+    sink_incons = []
     for i, mo in zip(ok_idx, model):
         ci = canon_result(parsed[i][3])
         try:
             cm = canon_result(sexp.parse(mo))
             if cm.pop("wf", None) != ["1"]:
                 wf_fail.append(progs[i]["source"])
+            # hypotheses of C09_location_is_unique_definition(_nodup): unique definitions / the verified
+            # SSA validator with the implementation's dominator tree as certificate
+            ud, ssa = cm.pop("ud", None), cm.pop("ssa", None)
+            if ud != ["1"] or ssa != ["1"]:
+                ssa_fail.append({"source": progs[i]["source"], "nodup_v_all_defs": ud, "ssa_check": ssa})
         except Exception:
             cm = {"model-output": [mo[:200]]}
+        bad = sink_consistency(parsed[i][3])
+        if bad:
+            sink_incons.append({"source": progs[i]["source"], "inconsistent": bad[:4]})
         if ci != cm:
             secs = [s for s in SECTIONS if ci.get(s) != cm.get(s)]
             s0 = secs[0] if secs else "?"
@@ -317,23 +371,28 @@ def evaluate(ctx, progs, nval, nrep):
             elif v:
                 failing.append({"index": i, "source": progs[i]["source"], "prog": strip(progs[i]), "finding": list(f),
                                 "oracle": v, "kf_ssa_key_collision": kf_ssa_key_collision(parsed[i][1])})
-    # corpus expectations
+    # corpus / probe expectations
     corpus_fail = []
+    control_fail = []
     for i, p in enumerate(progs):
-        if "corpus" in p:
+        if "corpus" in p or "probe" in p:
+            label = ("corpus " + p["corpus"]) if "corpus" in p else ("probe " + p["probe"])
             fs = findings_of(parsed[i][3]) if i in parsed else None
             if fs is None:
-                corpus_fail.append({"corpus": p["corpus"], "problem": "no result: " + impl[i][:60]})
+                corpus_fail.append({"corpus": label, "problem": "no result: " + impl[i][:60], "source": p["source"]})
                 continue
             have = set((f[1], f[2]) for f in fs)
             for kind, name in p["expect_absent"]:
                 if (kind, name) in have:
-                    corpus_fail.append({"corpus": p["corpus"], "problem": "finding %s `%s` is back" % (kind, name), "source": p["source"]})
+                    corpus_fail.append({"corpus": label, "problem": "finding %s `%s` %s" % (kind, name, "is back" if "corpus" in p else
+                                        "although the value reaches an effect"), "source": p["source"], "prog": strip(p)})
             for kind, name in p["expect_present"]:
                 if (kind, name) not in have:
-                    corpus_fail.append({"corpus": p["corpus"], "problem": "finding %s `%s` missing" % (kind, name), "source": p["source"]})
+                    (corpus_fail if "corpus" in p else control_fail).append(
+                        {"corpus": label, "problem": "finding %s `%s` missing" % (kind, name), "source": p["source"]})
     return {"status": status, "ok": len(ok_idx), "disagreements": disagreements, "failing": failing, "unmapped": unmapped,
             "claims": claims, "claim_kinds": kinds, "oracle_runs": oracle_runs, "programs_with_claims": len(jobs), "corpus_fail": corpus_fail, "wf_fail": wf_fail,
+            "ssa_fail": ssa_fail, "sink_incons": sink_incons, "control_fail": control_fail,
             "parsed": parsed, "impl": impl}
 
 
@@ -351,7 +410,7 @@ def merge(acc, res, base, progs, keep_samples):
         d = acc.setdefault(k, {})
         for a, b in res[k].items():
             d[a] = d.get(a, 0) + b
-    for k in ("disagreements", "failing", "unmapped", "corpus_fail", "wf_fail"):
+    for k in ("disagreements", "failing", "unmapped", "corpus_fail", "wf_fail", "ssa_fail", "sink_incons", "control_fail"):
         acc.setdefault(k, []).extend(res[k][:50])
     acc["n_disagreements"] = acc.get("n_disagreements", 0) + len(res["disagreements"])
     acc["n_failing"] = acc.get("n_failing", 0) + len(res["failing"])
@@ -374,7 +433,7 @@ def run(ctx, proofs):
     first = True
     while total < n or first:
         k = min(BATCH, n - total)
-        progs = make_cases(ctx, k) if first else make_cases(ctx, k)[len(load_corpus()):]
+        progs = make_cases(ctx, k, fixed=first)
         first = False
         total += k
         for p in progs:
@@ -400,8 +459,9 @@ def finish(ctx, proofs, res, feats, alph, nval, nrep):
                       {"input": f["source"], "prog": f["prog"], "impl": fd, "spec": f["oracle"],
                        "ssa_key_collision": f["kf_ssa_key_collision"]})
     for c in res["corpus_fail"][:3]:
-        ctx.violation("regression corpus: %s: %s" % (c["corpus"], c["problem"]),
-                      {"input": c.get("source"), "impl": c["problem"], "spec": "corpus expectation"})
+        ctx.violation("expectation: %s: %s" % (c["corpus"], c["problem"]),
+                      {"input": c.get("source"), "prog": c.get("prog"), "impl": c["problem"],
+                       "spec": "corpus expectation / sink probe: no claim about a value that reaches an effect"})
     degenerate = res["ok"] < 0.5 * res["generated"] or res["programs_with_claims"] < 0.2 * max(1, res["ok"])
     if not ctx.violations:
         if res["disagreements"]:
@@ -415,6 +475,20 @@ def finish(ctx, proofs, res, feats, alph, nval, nrep):
             ctx.violation("hypothesis ssa_wf_b of C09_noninterference is false on %d dumped cfgs" % len(res["wf_fail"]),
                           {"broken": "hypothesis exported_targets_declared / csig_on_signals of props/C09.v", "first": res["wf_fail"][0]},
                           no_input=True)
+        elif res["ssa_fail"]:
+            ctx.violation("hypothesis of C09_location_is_unique_definition is false on %d dumped cfgs (SsaCheck.ssa_check with the "
+                          "implementation's dominator tree / nodup_v (all_defs g))" % len(res["ssa_fail"]),
+                          {"broken": "hypothesis ssa_check / unique definitions of props/C09.v (location theorems)", "first": res["ssa_fail"][0]},
+                          no_input=True)
+        elif res["sink_incons"]:
+            ctx.violation("the sink set transcribed in harness/src/bin/taint.rs no longer explains the real reports of "
+                          "run_side_effect_analysis on %d definitions (the real sink set changed)" % len(res["sink_incons"]),
+                          {"broken": "transcription of the sink set (side_effect_analysis.rs:285-339) vs the real CS0008 reports",
+                           "first": res["sink_incons"][0]}, no_input=True)
+        elif res["control_fail"]:
+            ctx.violation("sink probes: %d control programs (value reaches no effect) are no longer flagged: the real sink set or taint "
+                          "relation grew; first: %s: %s" % (len(res["control_fail"]), res["control_fail"][0]["corpus"], res["control_fail"][0]["problem"]),
+                          {"broken": "sink set differential (control probes of lib/c09probe.py)", "first": res["control_fail"][0]}, no_input=True)
         elif res["unmapped"]:
             ctx.violation("oracle could not map %d findings to an assignment of the source" % len(res["unmapped"]),
                           {"broken": "oracle mapping finding -> source statement", "first": res["unmapped"][0]}, no_input=True)
@@ -445,6 +519,10 @@ def finish(ctx, proofs, res, feats, alph, nval, nrep):
         "disagreements_model_vs_impl": res["n_disagreements"],
         "false_claims_found": res["n_failing"],
         "hypothesis_ssa_wf_b_false_on": len(res["wf_fail"]),
+        "hypothesis_ssa_check_or_unique_defs_false_on": len(res["ssa_fail"]),
+        "sink_transcription_inconsistent_with_real_reports_on": len(res["sink_incons"]),
+        "sink_probes": {"programs": alph.get("probe", 0), "sink_probe_claims_about_effectful_values": len([c for c in res["corpus_fail"] if c["corpus"].startswith("probe")]),
+                        "control_probes_not_flagged": len(res["control_fail"])},
         "open_statements": OPEN_STATEMENTS,
     })
     ctx.assumptions += ASSUMPTIONS
